@@ -39,10 +39,11 @@ def resolve_function(program, reg, c):
     if c.target.startswith('gen:'):
         from . import genloop
         return genloop.funcinfo(program, c)
-    if c.target not in program.functions:
+    tgt = c.target.split('#')[0]          # target#tag: a typed variant of the contract of the same real function
+    if tgt not in program.functions:
         return None
-    mi, node, parent = program.functions[c.target]
-    return FuncInfo(c.target, node, mi.name, parent)
+    mi, node, parent = program.functions[tgt]
+    return FuncInfo(tgt, node, mi.name, parent)
 
 
 def verify(targets=None, props=None, tier='quick', timeout=None, verbose=False, jobs=None, only_names=None, ob_filter=None):
@@ -71,8 +72,8 @@ def verify(targets=None, props=None, tier='quick', timeout=None, verbose=False, 
                 rep.reason = 'function %s not found in the tree' % tgt
                 continue
             if not tgt.startswith('gen:'):
-                rep.sha = program.sha(tgt)
-                rep.location = program.location(tgt)
+                rep.sha = program.sha(tgt.split('#')[0])
+                rep.location = program.location(tgt.split('#')[0])
             else:
                 rep.sha = fi.sha
                 rep.location = fi.location
